@@ -372,9 +372,20 @@ def _call(mon, case):
     if fn == "chunk_by_slices":
         lens = None if case["lens"] is None else _long(case["lens"])
         sl = _long(case["slices"]).reshape(case["N"], 2)
+        if (case["N"] + case["T"]) % 2 == 0:
+            sl = sl.t().contiguous().t()  # the (N, 2) bounds as a view of a (2, N) tensor (how lists of starts/ends get stacked)
+            mon.cls("slices_transposed_view")
         if module:
-            return mon.lib(fn, lambda: M.ChunkBySlices(case["mode"], value)(x, sl, lens), documented=doc), None
-        return mon.lib(fn, lambda: F.chunk_by_slices(x, sl, lens, case["mode"], value), documented=doc), None
+            call = lambda: M.ChunkBySlices(case["mode"], value)(x, sl, lens)
+        else:
+            call = lambda: F.chunk_by_slices(x, sl, lens, case["mode"], value)
+        first = mon.lib(fn, call, documented=doc)
+        # the same tensor objects handed over a second time (features, then alignments, are chunked with one
+        # set of slices): the answer must be the same
+        again = mon.lib(fn, call, documented=doc)
+        same = all(a.shape == b.shape and bool(((a == b) | ((a != a) & (b != b))).all()) for a, b in zip(first, again))
+        mon.check(same, "chunk-repeat-call", first=first, again=again, slices=case["slices"])
+        return first, None
     if fn == "pad_masked_sequence":
         mask = torch.tensor(_flat(case["mask"], []), dtype=torch.bool).reshape(case["N"], case["T"])
         bf = case["batch_first"]
